@@ -675,6 +675,47 @@ PPL::Polyhedron::modify_according_to_evolution(Linear_Expression& ray,
   ray.normalize();
 }
 
+void
+PPL::Polyhedron
+::orthogonal_form_rays(const Generator_System& gs,
+                       std::vector<Linear_Expression>& rays) {
+  rays.clear();
+  PPL_DIRTY_TEMP_COEFFICIENT(b_norm);
+  PPL_DIRTY_TEMP_COEFFICIENT(sp);
+  // Compute an orthogonal basis of the lineality space (Gram-Schmidt,
+  // avoiding divisions); then project each ray on its orthogonal complement.
+  // Note: each projection step multiplies the vector by a positive value.
+  std::vector<Linear_Expression> basis;
+  for (int pass = 0; pass < 2; ++pass) {
+    for (Generator_System::const_iterator i = gs.begin(),
+           gs_end = gs.end(); i != gs_end; ++i) {
+      const Generator& g = *i;
+      if (pass == 0 ? !g.is_line() : !g.is_ray()) {
+        continue;
+      }
+      Linear_Expression e(g.expression());
+      for (std::vector<Linear_Expression>::const_iterator
+             b = basis.begin(), b_end = basis.end(); b != b_end; ++b) {
+        Scalar_Products::homogeneous_assign(sp, e, *b);
+        if (sp != 0) {
+          Scalar_Products::homogeneous_assign(b_norm, *b, *b);
+          // e = b_norm * e - sp * b.
+          e *= b_norm;
+          sub_mul_assign(e, sp, *b);
+          e.normalize();
+        }
+      }
+      PPL_ASSERT(!e.all_homogeneous_terms_are_zero());
+      if (pass == 0) {
+        basis.push_back(e);
+      }
+      else {
+        rays.push_back(e);
+      }
+    }
+  }
+}
+
 bool
 PPL::Polyhedron::BHRZ03_evolving_rays(const Polyhedron& y,
                                       const BHRZ03_Certificate& y_cert,
@@ -693,23 +734,38 @@ PPL::Polyhedron::BHRZ03_evolving_rays(const Polyhedron& y,
          && H79.constraints_are_minimized() && H79.generators_are_minimized());
 
   const dimension_type x_gen_sys_num_rows = x.gen_sys.num_rows();
-  const dimension_type y_gen_sys_num_rows = y.gen_sys.num_rows();
+
+  // The evolution of a ray is judged by looking at its coordinates:
+  // these have to be those of the orthogonal form of the generator systems,
+  // because the rays in `x.gen_sys' and `y.gen_sys' are arbitrarily chosen
+  // among those that are equivalent modulo the lineality space and,
+  // otherwise, the result would depend on this choice.
+  std::vector<Linear_Expression> x_rays;
+  std::vector<Linear_Expression> y_rays;
+  orthogonal_form_rays(x.gen_sys, x_rays);
+  orthogonal_form_rays(y.gen_sys, y_rays);
+  const dimension_type y_rays_size = y_rays.size();
 
   // Candidate rays are kept in a temporary generator system.
   Generator_System candidate_rays;
-  for (dimension_type i = x_gen_sys_num_rows; i-- > 0; ) {
+  // Note: `x_rays' lists the rays in the same order as `x.gen_sys'.
+  for (dimension_type i = 0, x_ray_index = 0;
+       i < x_gen_sys_num_rows; ++i) {
     const Generator& x_g = x.gen_sys[i];
+    if (!x_g.is_ray()) {
+      continue;
+    }
+    const Linear_Expression& x_ray = x_rays[x_ray_index];
+    ++x_ray_index;
     // We choose a ray of `x' that does not belong to `y'.
-    if (x_g.is_ray() && y.relation_with(x_g) == Poly_Gen_Relation::nothing()) {
-      for (dimension_type j = y_gen_sys_num_rows; j-- > 0; ) {
-        const Generator& y_g = y.gen_sys[j];
-        if (y_g.is_ray()) {
-          Generator new_ray(x_g);
-          // Modify `new_ray' according to the evolution of `x_g' with
-          // respect to `y_g'.
-          modify_according_to_evolution(new_ray.expr, x_g.expr, y_g.expr);
-          PPL_ASSERT(new_ray.OK());
-          candidate_rays.insert(new_ray);
+    if (y.relation_with(x_g) == Poly_Gen_Relation::nothing()) {
+      for (dimension_type j = y_rays_size; j-- > 0; ) {
+        Linear_Expression new_ray(x_ray);
+        // Modify `new_ray' according to the evolution of `x_ray' with
+        // respect to `y_rays[j]'.
+        modify_according_to_evolution(new_ray, x_ray, y_rays[j]);
+        if (!new_ray.all_homogeneous_terms_are_zero()) {
+          candidate_rays.insert(ray(new_ray));
         }
       }
     }
